@@ -145,12 +145,36 @@ def _tl(v):
     return str(v)
 
 
-def ref_event(e, rootname):
+def _leaves(v):
+    if isinstance(v, str):
+        yield v
+    elif isinstance(v, dict):
+        for x in v.values():
+            yield from _leaves(x)
+
+
+def owners_of(events):
+    """cell text -> path (below the root) of the only row that carries exactly that text in one of its cells"""
+    seen = {}
+    for e in events:
+        if e.get("ev") != "row":
+            continue
+        row = e["row"]
+        nm = row.get("name")
+        if not nm:
+            continue
+        path = [str(x) for x in e["names"]] + [str(nm)]
+        for t in set(_leaves(row)):
+            seen.setdefault(t, []).append(path)
+    return {t: ps[0] for t, ps in seen.items() if len(ps) == 1 and "${" in t}
+
+
+def ref_event(e, rootname, owners=None):
     ctx = project.split_path(e["ctx"]) if e.get("ctx") else None
     ctxok = bool(ctx) and ctx[0] == rootname
     ev = {"ev": "ref", "name": e["name"], "ls": bool(e["last_saved"]), "ctx": ctx[1:] if ctxok else [], "ctxok": ctxok,
           "err": "error" in e, "parse_ok": False, "e": {"abs": True, "up": 0, "path": [], "cur": False, "inst": ""},
-          "in_ir": False, "in_pred": False}
+          "in_ir": False, "in_pred": False, "owner": (owners or {}).get(e.get("src") or "", [])}
     if "out" in e:
         pe = abstract.parse_ref_output(e["out"], rootname)
         if pe is not None:
@@ -197,6 +221,7 @@ def build(result: dict, cfg: dict, with_refs: bool = False, src: dict | None = N
     frag = True
     nwarn0 = next((e["nwarn"] for e in rows if "nwarn" in e), 0)
     trace.append({"ev": "init", "cfg": cfg, "nwarn0": nwarn0})
+    owners = owners_of(rows) if with_refs else {}
     for e in rows:
         snap = {} if e["ev"] == "ref" else {
             "kinds": [k or "" for k in e["kinds"]],
@@ -207,7 +232,7 @@ def build(result: dict, cfg: dict, with_refs: bool = False, src: dict | None = N
             "nwarn": e["nwarn"],
         }
         if e["ev"] == "ref":
-            trace.append(ref_event(e, cfg["formname"]))
+            trace.append(ref_event(e, cfg["formname"], owners))
             continue
         if e["ev"] == "row":
             a = abstract.alpha_row(e["row"])
